@@ -7,7 +7,8 @@
 (*  to_scoring    log_base(weight) through every route, -inf where the     *)
 (*                background is 0 or the weight is 0; min/max score are    *)
 (*                the sums of row minima / maxima over non-wildcard cells  *)
-(*  rescale       weights under the new background                         *)
+(*  rescale       weights under the new background; rescale_chain: a       *)
+(*                history of rescales ends under the last background       *)
 (*  bg_new, bg_from_counts, freq_new   validity checks                     *)
 (* Values are logged as round(x * 4096) (frequencies, weights) or          *)
 (* round(x * 1024) (scores); sentinels mark -inf / +inf / NaN.             *)
@@ -65,6 +66,15 @@ Apply(s, e) ==
     [] e.ev = "to_freq"   -> [ok |-> FreqOK(e), st |-> s, exp |-> [why |-> "frequency"]]
     [] e.ev = "to_weight" -> [ok |-> WeightOK(e, e.bn, e.bd), st |-> s, exp |-> [why |-> "weight"]]
     [] e.ev = "rescale"   -> [ok |-> WeightOK(e, e.bn2, e.bd2), st |-> s, exp |-> [why |-> "rescale"]]
+    [] e.ev = "rescale_chain" ->
+         \* a history of rescales on one weight matrix ends with the weights, the reported background and the
+         \* log-odds of the LAST background
+         LET a == WeightOK(e, e.bn2, e.bd2)
+             b == \A k \in 1..e.K : QNear(e.bgq[k], e.bn2[k], e.bd2, Q12, 1)
+             c == Len(e.s) = Len(e.m) /\ \A i \in 1..Len(e.m) : \A k \in 1..e.K :
+                    ScoreCellOK(e.s[i][k], Fn(e, i, k), Fd(e, i), e.bn2, e.bd2, k, 2, 1)
+         IN [ok |-> a /\ b /\ c, st |-> s,
+             exp |-> [why |-> IF ~a THEN "rescale_chain_weights" ELSE IF ~b THEN "rescale_chain_reported_background" ELSE "rescale_chain_log_odds"]]
     [] e.ev = "to_scoring" ->
          LET a == ScoringOK(e)  b == MinMaxOK(e) IN
          [ok |-> a /\ b, st |-> s, exp |-> [why |-> IF ~a THEN "log_odds" ELSE "min_max_score"]]
